@@ -56,6 +56,7 @@ def dispatch (op : String) (args : List String) (obs : String) : String × Strin
   | "sr" => c12sr args obs
   | "fl" => c12fl args obs
   | "ind" => c12ind args obs
+  | "indr" => c12indr args obs
   | "cf" => c12cf args obs
   | "badc" => c12badc args obs
   | "rst" => c18rst args obs
